@@ -294,13 +294,7 @@ class Fn:
         unknown (all edges feasible): the result over-approximates the feasible paths and is a subset of plain reachability."""
         # locals that are ever mutably borrowed (or whose address is taken) can change variant behind the analysis' back
         # (`opt.take()`): never tracked
-        volatile = getattr(self, "_volatile", None)
-        if volatile is None:
-            volatile = set()
-            for _site, s in self.stmts():
-                if s["k"] == "assign" and s["rv"]["k"] in ("ref", "rawptr") and (s["rv"].get("mut") or s["rv"]["k"] == "rawptr"):
-                    volatile.add(s["rv"]["p"][0])
-            self._volatile = volatile
+        volatile = self.volatile_locals()
         states = {start_bb: {}}
         work = deque([start_bb])
         def join(a, b):
@@ -414,9 +408,66 @@ class Fn:
         if b in sites:
             return True
         return b not in self.reach(self.entry(), no_sites=list(sites))
-    def edge_dominates(self, edge, b):
+    def _reach_without_edge(self, edge):
+        k = ("rwe", edge)
+        r = self._reach_cache.get(k)
+        if r is None:
+            if len(self._reach_cache) > 600:
+                for kk in [kk for kk in self._reach_cache if isinstance(kk, tuple) and kk and kk[0] == "rwe"][:300]:
+                    del self._reach_cache[kk]
+            r = self.reach(self.entry(), no_edges=[edge])
+            self._reach_cache[k] = r
+        return r
+    def edge_dominates_plain(self, edge, b):
         """every path entry -> b takes block edge `edge` (a_bb, b_bb)"""
-        return b not in self.reach(self.entry(), no_edges=[edge])
+        return b not in self._reach_without_edge(tuple(edge))
+    def flag_switches(self):
+        """bool switches on a local with several definitions at least one of which is a constant: the lowering of
+        `a && b`, `matches!`, `let flag = ..` decisions.  [(site, term, local, negated, defs)]"""
+        fs = getattr(self, "_flag_switches", None)
+        if fs is None:
+            from .model import _flag_defs
+            fs = []
+            for site, t in self.switches():
+                if t["dty"] != "bool":
+                    continue
+                p = op_place(t["discr"])
+                if p is None or p[1]:
+                    continue
+                local, neg, ds = _flag_defs(self, p[0])
+                if len(ds) < 2:
+                    continue
+                if not any(k == "assign" and st["rv"]["k"] == "use" and st["rv"]["op"].get("k") == "const" for _s, k, st in ds):
+                    continue
+                fs.append((site, t, local, neg, ds))
+            self._flag_switches = fs
+        return fs
+    def edge_dominates(self, edge, b):
+        """`b` executes only if block edge `edge` was taken: plain edge dominance, or dominance through a bool that records
+        the decision and is tested later (`let due = closed && count == 0; if due {..}`, `matches!`, `if !(a || b)`):
+        see model.edge_guards."""
+        if b not in self._reach_without_edge(tuple(edge)):
+            return True
+        if os.environ.get("VERIF_NO_FLAGS") or not self.flag_switches():
+            return False
+        k = (tuple(edge), b)
+        c = self._reach_cache.get(("eg", k))
+        if c is None:
+            from .model import edge_guards
+            c = bool(edge_guards(self, edge, b))
+            self._reach_cache[("eg", k)] = c
+        return c
+    def volatile_locals(self):
+        """locals that are mutably borrowed / address-taken somewhere in the body: they can change behind a flow-insensitive
+        reading of their definitions"""
+        v = getattr(self, "_volatile", None)
+        if v is None:
+            v = set()
+            for _site, s in self.stmts():
+                if s["k"] == "assign" and s["rv"]["k"] in ("ref", "rawptr") and (s["rv"].get("mut") or s["rv"]["k"] == "rawptr"):
+                    v.add(s["rv"]["p"][0])
+            self._volatile = v
+        return v
     def edges_dominate(self, edges, b):
         return b not in self.reach(self.entry(), no_edges=list(edges))
     def after(self, a):
@@ -1044,9 +1095,44 @@ class DB:
         self._children = None
         self._by_trait_item = None
         self._normalize_flag_enums()
+        self._desugar_std_combinators()
         self.inlined = []
         if inline:
             self._inline_private_helpers(inline)
+
+    def _desugar_std_combinators(self):
+        """first-order std combinators are presented as the control flow they stand for, so that rules see one form:
+             d = bool::then_some(c, v)      =>   switch c { true: d = Some(v), false: d = None }
+        (combinators taking closures are not touched: their closure is a separate body)"""
+        n = 0
+        for f in self.fns.values():
+            if not (f.crate or "").startswith("ractor"):
+                continue
+            blocks = f.raw["blocks"]
+            for bi in range(len(blocks)):
+                t = blocks[bi]["term"]
+                if t["k"] != "call" or t.get("target") is None:
+                    continue
+                fnc = t.get("func") or {}
+                info = fnc.get("fn") if fnc.get("k") == "const" else None
+                if not info or info.get("def") != "core::bool::<impl bool>::then_some" or len(t["args"]) != 2:
+                    continue
+                cond, val = t["args"]
+                if op_place(cond) is None:
+                    continue
+                tb, fb = len(blocks), len(blocks) + 1
+                cl = blocks[bi].get("cleanup", False)
+                blocks.append({"cleanup": cl, "stmts": [{"k": "assign", "l": t.get("l"), "lhs": t["dest"], "desugared": "then_some",
+                               "rv": {"k": "agg", "kind": "adt", "adt": "std::option::Option", "variant": "Some", "vidx": 1, "fields": ["0"], "ops": [val]}}],
+                               "term": {"k": "goto", "target": t["target"], "l": t.get("l")}})
+                blocks.append({"cleanup": cl, "stmts": [{"k": "assign", "l": t.get("l"), "lhs": t["dest"], "desugared": "then_some",
+                               "rv": {"k": "agg", "kind": "adt", "adt": "std::option::Option", "variant": "None", "vidx": 0, "fields": [], "ops": []}}],
+                               "term": {"k": "goto", "target": t["target"], "l": t.get("l")}})
+                blocks[bi]["term"] = {"l": t.get("l"), "k": "switch", "discr": cond, "dty": "bool", "targets": [["0", fb]], "otherwise": tb, "desugared": "then_some"}
+                n += 1
+            if n:
+                f._reach_cache = {}
+        self.desugared = n
 
     def _normalize_flag_enums(self):
         """A crate-private enum with exactly two field-less variants is a bool by another name (`armed: bool` <->
